@@ -130,3 +130,18 @@ Theorem C09_cover_has_at_least_antichain_many_paths :
   path_cover B ignore P -> (length A' <= p_k B)%nat.
 Proof. exact cover_needs_antichain_many_paths. Qed.
 Print Assumptions C09_cover_has_at_least_antichain_many_paths.
+
+(* the exhaustive oracle the engines use to decide an instance's optimum when no certificate applies (constraints, relaxed
+   coverage) is itself verified and extracted: it returns the least number of paths of any cover realising the constraints *)
+From FP Require Import CoverOracle.
+Theorem C09_verified_oracle_returns_the_minimum :
+  forall (B : path_inst) (ignore : list PathEnc.edge) (rank : node -> nat) (kmax : nat),
+  PathEncProofs.wf_graph (p_graph B) -> (forall u v, In (u, v) (g_edges (p_graph B)) -> (rank u < rank v)%nat) ->
+  match min_cover B ignore kmax with
+  | Some k => (1 <= k <= kmax)%nat /\
+              (exists P, path_cover (set_k B k) ignore P /\ constraints_covered (set_k B k) P) /\
+              (forall j, (1 <= j < k)%nat -> ~ exists P, path_cover (set_k B j) ignore P /\ constraints_covered (set_k B j) P)
+  | None => forall j, (1 <= j <= kmax)%nat -> ~ exists P, path_cover (set_k B j) ignore P /\ constraints_covered (set_k B j) P
+  end.
+Proof. exact min_cover_correct. Qed.
+Print Assumptions C09_verified_oracle_returns_the_minimum.
